@@ -46,13 +46,14 @@ def body(c):
         flavour = "static" if i % 2 == 0 else "dynamic"
         wg = gqlgen.WorldGen(ts, random.Random(c.seed * 7 + i), p_null=0.1, p_err=0.08 if i % 3 == 0 else 0.0)
         wg.dyn_lists = flavour == "dynamic"
-        cases.append({"id": 0, "flavour": flavour, "doc": d, "opIndex": 1, "vars": supplied, "world": wg.world(), "exts": 1 + i % 3})
+        cases.append({"id": 0, "flavour": flavour, "doc": d, "opIndex": 1, "vars": supplied, "world": wg.world(), "exts": 1 + i % 3,
+                      "preparsed": i % 4 == 3})
     empty_doc = {"ops": [{"name": "", "ty": "query", "vars": [], "dirs": [], "sels": []}], "frags": []}
     for j, t in enumerate(INVALID):
         for flavour in ("static", "dynamic"):
             for k in (1, 2, 3):
                 cases.append({"id": 0, "flavour": flavour, "doc": empty_doc, "rawText": t, "opIndex": 1, "vars": [],
-                              "world": gqlgen.WorldGen(ts, random.Random(j)).world(), "exts": k})
+                              "world": gqlgen.WorldGen(ts, random.Random(j)).world(), "exts": k, "preparsed": (j + k) % 3 == 0})
     for i, x in enumerate(cases):
         x["id"] = i + 1
     vlib.write_ndjson(c.path("cases.ndjson"), cases)
